@@ -45,6 +45,13 @@ def main():
     checks = checks or [prop]
     dst = os.path.join(V, 'seeded', tag)
     os.makedirs(dst, exist_ok=True)
+    try:  # notes added after the delivery live in the kept meta.json only: carry them over
+        kept = json.load(open(os.path.join(dst, 'meta.json')))
+        for k in ('first_run', 'rebased'):
+            if k in kept and k not in meta:
+                meta[k] = kept[k]
+    except Exception:
+        pass
     nested = []  # demo files delivered with their path inside the repository
     for root, _, fs in os.walk(src):
         for f in fs:
